@@ -162,8 +162,13 @@ def resolve_local_links(
             website_path, is_scalable = source_to_page_paths[fspath]
 
             # Change serving number to match current page, if it's path starts
-            # with "/serves", except for unscaled recipes
-            if from_path.startswith("/serves") and is_scalable:
+            # with "/serves", except for unscaled recipes and pages which are
+            # not below a serving count/category directory (i.e. the homepage)
+            if (
+                from_path.startswith("/serves")
+                and is_scalable
+                and len(website_path.split("/")) > 2
+            ):
                 website_path = "/".join(
                     from_path.split("/")[:2] + website_path.split("/")[2:]
                 )
